@@ -90,6 +90,15 @@ func (fc *FnCtx) doCall(st *State, c *ssa.CallCommon, in ssa.Instruction, site s
 		if _, isPtr := a.Type().Underlying().(*types.Pointer); isPtr {
 			fc.havocPointee(st, a, args[i])
 		}
+		// a pointer handed over inside an interface value (Decode(&v), Unmarshal(.., &v)): the
+		// callee may write through it just the same
+		if types.IsInterface(a.Type()) && !args[i].T.IsZero() {
+			if bi, ok := fc.top.boxed[args[i].T.S]; ok {
+				if _, isPtr := bi.typ.Underlying().(*types.Pointer); isPtr {
+					fc.havocPointeeOf(st, bi.typ, bi.val)
+				}
+			}
+		}
 		// a function value handed to an unspecified callee (rand.Shuffle's swap, ...) may be
 		// called any number of times: everything it can write is unknown afterwards
 		if args[i].Fn != nil && args[i].Fn.Fn != nil && len(args[i].Fn.Fn.Blocks) > 0 {
@@ -109,7 +118,11 @@ func (fc *FnCtx) doCall(st *State, c *ssa.CallCommon, in ssa.Instruction, site s
 
 // havocPointee: an external callee may write through a pointer argument.
 func (fc *FnCtx) havocPointee(st *State, a ssa.Value, v Val) {
-	elem := a.Type().Underlying().(*types.Pointer).Elem()
+	fc.havocPointeeOf(st, a.Type(), v)
+}
+
+func (fc *FnCtx) havocPointeeOf(st *State, ptrType types.Type, v Val) {
+	elem := ptrType.Underlying().(*types.Pointer).Elem()
 	if v.P != nil {
 		nv := fc.S.Fresh("ext", fc.TE.SortOf(elem))
 		if len(v.P.Path) == 0 {
@@ -204,6 +217,21 @@ func (fc *FnCtx) invoke(st *State, c *ssa.CallCommon, in ssa.Instruction, site s
 		return fc.applyContract(st, ct, nil, c.Signature(), args, site, resTypes)
 	}
 	fc.notes.Havocked["invoke "+it.String()+"."+mname] = true
+	// an unspecified method may write through the pointers it is given, directly or inside an
+	// interface value (Decode(&v))
+	for i, a := range c.Args {
+		av := args[i+1]
+		if _, isPtr := a.Type().Underlying().(*types.Pointer); isPtr {
+			fc.havocPointee(st, a, av)
+		}
+		if types.IsInterface(a.Type()) && !av.T.IsZero() {
+			if bi, ok := fc.top.boxed[av.T.S]; ok {
+				if _, isPtr := bi.typ.Underlying().(*types.Pointer); isPtr {
+					fc.havocPointeeOf(st, bi.typ, bi.val)
+				}
+			}
+		}
+	}
 	return fc.freshResults(st, resTypes, mname, false)
 }
 
